@@ -29,6 +29,7 @@
 //!   R12 invocations of the crate's own single-rule macro_rules macros (src/lib.rs) are expanded textually
 //!   R10h (`//@loop n iter=it hoist`) `for P in E {` -> `let __itN = verif_hoist(E); let ghost __itsN = __itN@; for P in it: __itN {`
 //!   R14 (with R10h) `V.into_iter().rev()` -> `verif_rev_vec(V)`
+//!   R19 / R19b (`//@extract .. lower=fold,for_each`) `X.fold(init, |acc, item| BLOCK)` / `X.for_each(|item| BLOCK)` -> loops over the visited items
 //!   R18 (`//@replace_text` + FROM line + TO line) the unique occurrence of the text FROM (modulo whitespace) -> TO
 //!   R17 (`//@rename_call FROM TO`) method calls `.FROM(..)` -> `.TO(..)`
 //!   R16 (`//@binop OP N FNAME`) the N-th binary expression `L OP R` -> `FNAME(L, R)`
@@ -328,6 +329,8 @@ struct BodyScan {
     method_idents: BTreeMap<String, Vec<(usize, usize)>>,
     // R11c loops: loop ordinal -> offset just after the closure's block (where the lanes have been put back: anchor `loop_tail`)
     lane_loops: BTreeMap<usize, usize>,
+    // R19 loops: the body block is generated around the closure's block (loop_start goes inside the closure's block)
+    fold_loops: std::collections::BTreeSet<usize>,
     // calls by name: (enclosing stmt)
     calls: BTreeMap<String, Vec<StmtInfo>>,
     lets: BTreeMap<String, Vec<StmtInfo>>,
@@ -345,6 +348,8 @@ struct BodyScan {
 struct Scanner<'a> {
     src: &'a SrcFile,
     scan: BodyScan,
+    // opt-in lowerings requested by the template (`//@extract .. lower=fold,for_each`)
+    lower: std::collections::BTreeSet<String>,
     // R12: the crate's own single-rule macro_rules macros: name -> (parameter names, body text)
     crate_macros: &'a BTreeMap<String, (Vec<String>, String)>,
 }
@@ -786,6 +791,53 @@ impl<'a, 'ast> Visit<'ast> for Scanner<'a> {
                 }
             }
         }
+        // R19 (opt-in `lower=fold`): `RECV.fold(INIT, |acc, item| BLOCK)` -> a loop over the items RECV's fold visits (each once,
+        // unspecified order) threading the accumulator:
+        //   { let __fo = verif_fold_items(RECV); let ghost __fos = __fo@; let mut __acc = INIT; for item in it: __fo <contract> { let acc = __acc; __acc = BLOCK; } __acc }
+        if self.lower.contains("fold") && c.method == "fold" && c.args.len() == 2 {
+            if let syn::Expr::Closure(cl) = &c.args[1] {
+                if cl.inputs.len() == 2 && matches!(&*cl.body, syn::Expr::Block(_)) {
+                    let (a, _) = self.src.range(c.span());
+                    let (_, ce) = self.src.range(c.span());
+                    let (bs, be) = self.src.range(cl.body.span());
+                    let recv = self.text(c.receiver.span()).trim().to_string();
+                    let init = self.text(c.args[0].span()).trim().to_string();
+                    let p_acc = self.text(cl.inputs[0].span()).to_string();
+                    let p_item = self.text(cl.inputs[1].span()).to_string();
+                    self.scan.rewrites.push((a, bs, format!("{{ let __fo = verif_fold_items({}); let ghost __fos = __fo@; let mut __acc = {}; for {} in it: __fo ", recv, init, p_item), "R19".into()));
+                    self.scan.rewrites.push((bs, bs, format!("{{ let {} = __acc; __acc = ", p_acc), "R19-late".into()));
+                    self.scan.rewrites.push((be, be, ";".to_string(), "R19".into()));
+                    self.scan.rewrites.push((be, be, " }".to_string(), "R19-late".into()));
+                    self.scan.rewrites.push((be, ce, " __acc }".to_string(), "R19".into()));
+                    let (s0, e0) = self.src.range(c.span());
+                    // loop contract before the generated body block, `loop_end` after the accumulator has been assigned
+                    self.scan.loops.push((bs, be, s0, e0));
+                    self.scan.fold_loops.insert(self.scan.loops.len() - 1);
+                    self.record_call("verif_fold_items".into());
+                    syn::visit::visit_expr(self, &cl.body);
+                    return;
+                }
+            }
+        }
+        // R19b (opt-in `lower=for_each`): `RECV.for_each(|item| BLOCK)` -> `let __fo = verif_fold_items(RECV); let ghost __fos = __fo@; for item in it: __fo BLOCK`
+        if self.lower.contains("for_each") && c.method == "for_each" && c.args.len() == 1 {
+            if let syn::Expr::Closure(cl) = &c.args[0] {
+                if cl.inputs.len() == 1 && matches!(&*cl.body, syn::Expr::Block(_)) {
+                    let (a, _) = self.src.range(c.span());
+                    let (_, ce) = self.src.range(c.span());
+                    let (bs, be) = self.src.range(cl.body.span());
+                    let recv = self.text(c.receiver.span()).trim().to_string();
+                    let p_item = self.text(cl.inputs[0].span()).to_string();
+                    self.scan.rewrites.push((a, bs, format!("let __fo = verif_fold_items({}); let ghost __fos = __fo@; for {} in it: __fo ", recv, p_item), "R19b".into()));
+                    self.scan.rewrites.push((be, ce, String::new(), "R19b".into()));
+                    let (s0, e0) = self.src.range(c.span());
+                    self.scan.loops.push((bs, be - 1, s0, e0));
+                    self.record_call("verif_fold_items".into());
+                    syn::visit::visit_expr(self, &cl.body);
+                    return;
+                }
+            }
+        }
         // R8: X.iter().cloned().zip(Y.into_iter()).collect()
         if c.method == "collect" && c.args.is_empty() {
             if let syn::Expr::MethodCall(z) = &*c.receiver {
@@ -970,7 +1022,7 @@ fn main() {
                 }
                 let (bo, _) = src.range(f.block.brace_token.span.open());
                 let (bc, bc_end) = src.range(f.block.brace_token.span.close());
-                let mut sc = Scanner { src, scan: BodyScan::default(), crate_macros: &crate_macros };
+                let mut sc = Scanner { src, scan: BodyScan::default(), crate_macros: &crate_macros, lower: r.attrs.get("lower").map(|x| x.split(',').map(|y| y.to_string()).collect()).unwrap_or_default() };
                 sc.visit_block(f.block);
                 let scan = sc.scan;
 
@@ -1156,7 +1208,12 @@ fn main() {
                                     let lp = scan.loops.get(n).unwrap_or_else(|| die(3, format!("lost-anchor: loop {} of {} not found", n, id)));
                                     let at = match what { "before_loop" => lp.2, "after_loop" => lp.3, _ => lp.1 };
                                     let semi = if what == "loop_end" && scan.loop_tail_nosemi.contains(&n) { ";" } else { "" };
-                                    edits.push((at, at, seq, format!("{}\n{}\n", semi, s.text), meta));
+                                    if what == "after_loop" && scan.fold_loops.contains(&n) {
+                                        // R19: inside the generated block, after the loop and before the accumulator is returned
+                                        edits.push((lp.1, lp.1, seq + 2_000_000, format!("\n{}\n", s.text), meta));
+                                    } else {
+                                        edits.push((at, at, seq, format!("{}\n{}\n", semi, s.text), meta));
+                                    }
                                 }
                                 _ => die(4, format!("unknown anchor {} in {}", what, id)),
                             }
